@@ -279,7 +279,14 @@ Section Store.
     do! rp <- new_staging ;;
     match rp with Err e => ret (Err e, m) | Ok p =>
     do! r <- (match content with [] => ret (Ok tt) | _ => do_call (CAppend p content) end) ;;
-    match r with Err _ => do! _ <- drop_staging p ;; ret (Err EStageWrite, m) | Ok _ =>
+    match r with
+    | Err _ =>
+      (* a flush that fails inside finish() is retried once by the BufWriter's Drop while the
+         staging file still exists; one that fails inside write() is retried only after the
+         file was unlinked *)
+      do! _ <- (if bw_sim 0 chunks then ret (Ok tt) else do_call (CAppend p content)) ;;
+      do! _ <- drop_staging p ;; ret (Err EStageWrite, m)
+    | Ok _ =>
     do! r <- (if c_sync cfg then do_call (CSync p) else ret (Ok tt)) ;;
     match r with Err _ => do! _ <- drop_staging p ;; ret (Err EStageSync, m) | Ok _ =>
     let h := H content in
@@ -299,7 +306,15 @@ Section Store.
     do! r <- (if bw_sim 0 chunks then do_call (CAppend p (concat chunks)) else ret (Ok tt)) ;;
     match r with
     | Err _ => do! _ <- drop_staging p ;; ret (Err EStageWrite, m)
-    | Ok _ => do! _ <- drop_staging p ;; ret (Ok tt, m)
+    | Ok _ =>
+      (* field drop order: the NamedTempFile is unlinked first, then the BufWriter flushes what
+         it still holds - into the unlinked file, unless the unlink failed *)
+      do! u <- do_call (CUnlink p) ;;
+      do! _ <- (match u, concat chunks with
+                | Err _, _ :: _ => if bw_sim 0 chunks then ret (Ok tt) else do_call (CAppend p (concat chunks))
+                | _, _ => ret (Ok tt)
+                end) ;;
+      ret (Ok tt, m)
     end end.
 
   Definition remove (m : mem) (k : bytes) : M (res serr bool * mem) :=
